@@ -36,6 +36,9 @@ pub mod datalog2 {
     impl Clone for PublicKeys { #[verifier::external_body] fn clone(&self) -> (r: Self) ensures r == *self { unimplemented!() } }
     pub struct SymbolTable { pub public_keys: PublicKeys, pub verif_rest: u64 }
     impl PublicKeys {
+        //@extract biscuit-auth/src/token/public_keys.rs :: impl PublicKeys :: fn current_offset
+        //@ ensures len: r == self.keys@.len()
+        //@end
         // ASSUMED (iter().position(closure)): the index of the first equal key, appended when absent
         #[verifier::external_body]
         pub fn insert(&mut self, k: &crate::crypto::PublicKey) -> (r: u64)
